@@ -150,6 +150,17 @@ func (c *fnCtx) kindOf(f *ast.File, e ast.Expr) (Kind, error) {
 		if e.Name == "error" {
 			return Kind{Base: "error"}, nil
 		}
+		// a named map type used as a set
+		if ts, ok := c.pkg.Types[e.Name]; ok {
+			if mt, isMap := ts.Type.(*ast.MapType); isMap {
+				k, err := c.kindOf(c.pkg.fileOfType(ts), mt)
+				if err != nil {
+					return Kind{}, err
+				}
+				k.Named = &Named{Pkg: c.pkg, Name: e.Name}
+				return k, nil
+			}
+		}
 	case *ast.ArrayType:
 		if e.Len == nil {
 			el, err := c.kindOf(f, e.Elt)
@@ -186,6 +197,30 @@ func (c *fnCtx) kindOf(f *ast.File, e ast.Expr) (Kind, error) {
 			}
 		}
 		return Kind{}, c.err(e, "instantiated generic type")
+	case *ast.MapType:
+		// a map used as a set: map[K]struct{} / map[K]bool with K of an N-valued kind
+		isBool := false
+		switch v := e.Value.(type) {
+		case *ast.StructType:
+			if v.Fields != nil && len(v.Fields.List) > 0 {
+				return Kind{}, c.err(e, "map with struct values")
+			}
+		case *ast.Ident:
+			if v.Name != "bool" {
+				return Kind{}, c.err(e, "map with values of type %s (only map[K]struct{} / map[K]bool used as sets are read)", v.Name)
+			}
+			isBool = true
+		default:
+			return Kind{}, c.err(e, "map type (only map[K]struct{} / map[K]bool used as sets are read)")
+		}
+		el, err := c.kindOf(f, e.Key)
+		if err != nil {
+			return Kind{}, err
+		}
+		if el.coqType() != "N" {
+			return Kind{}, c.err(e, "map used as a set with keys of kind %s", el.Base)
+		}
+		return Kind{Base: "set", Elem: &el, BoolMap: isBool, Native: true}, nil
 	case *ast.FuncType:
 		ft := &FnType{}
 		if e.TypeParams != nil {
